@@ -391,8 +391,10 @@ class GState:
 
         if mode != SpinMode.OFF:
             self._ensure_tool_is_inactive("Spindle already active.")
+            self._set_tool_power(speed)
+        else:
+            self._current_tool_power = 0
 
-        self._set_tool_power(speed)
         self._is_tool_active = (mode != SpinMode.OFF)
         self._current_spin_mode = mode
 
@@ -412,8 +414,10 @@ class GState:
 
         if mode != PowerMode.OFF:
             self._ensure_tool_is_inactive("Power already active.")
+            self._set_tool_power(power)
+        else:
+            self._current_tool_power = 0
 
-        self._set_tool_power(power)
         self._is_tool_active = (mode != PowerMode.OFF)
         self._current_power_mode = mode
 
